@@ -14,8 +14,11 @@ Every place where the Rust can panic — slicing out of range or off a character
 harness builds with overflow checks) — yields the explicit result `TR.panic`, so "never panics"
 is a statement about the model and not an artefact of totalisation.
 
-Not modelled: `usize` overflow upwards (`offset + 1` at `usize::MAX`), pointer identity of the
-input (`PartialEq`/`Hash` of `Span`), `fmt::Error` propagation from a failing writer.
+Machine width: `Span.get` computes with unbounded integers; `Span.getU w` is the same function
+with `w`-bit `usize` bounds (`checked_add(1)?`, C13_get_usize).  Identity of the input object
+(`PartialEq`/`Hash` of `Span`, `merge_spans` across inputs) is modelled by `ISpan`.  Callbacks
+that fail (`fmt::Error`) are modelled in Lemmas/TextDisplayMore (`FormatOptionE`).  Not modelled:
+a failing WRITER (`fmt::Write` returning `Err`), offsets beyond `usize` elsewhere.
 `unicode-width` is external: the display width is a parameter `width : Char → Nat` and the width
 of a string is the sum over its characters (true of `UnicodeWidthStr::width_cjk` on the texts of
 the correspondence runs, where the tie checks it; not true of arbitrary emoji sequences).
@@ -178,6 +181,40 @@ def Span.get (sp : Span) (lo hi : Bound) : TR (Option Span) :=
     let en := hi.endOff (blen str)
     .ok ((getRange str st en).map fun _ => ⟨sp.input, sp.start + st, sp.start + en⟩)
 
+/-- `usize::checked_add(1)` on a machine with `w`-bit `usize`. -/
+def checkedSucc (w : Nat) (o : Nat) : Option Nat := if o + 1 < 2 ^ w then some (o + 1) else none
+
+/-- `Span::get(range)` with `usize` bounds of `w` bits, as written after the overflow repair:
+```
+let start = match range.start_bound() { Included(o) => *o, Excluded(o) => o.checked_add(1)?, Unbounded => 0 };
+let end = match range.end_bound() { Included(o) => o.checked_add(1)?, Excluded(o) => *o,
+                                    Unbounded => self.as_str().len() };
+self.as_str().get(start..end).map(|_| Span { input, start: self.start + start, end: self.start + end })
+```
+A bound whose successor does not fit in `usize` makes the whole call `None` (`?`), before the text
+of the span is looked at.  `Span.get` above is the same function with unbounded integers. -/
+def Span.getU (w : Nat) (sp : Span) (lo hi : Bound) : TR (Option Span) :=
+  let start? : Option Nat := match lo with
+    | .incl o => some o
+    | .excl o => checkedSucc w o
+    | .unb => some 0
+  match start? with
+  | none => .ok none
+  | some st =>
+    let end? : TR (Option Nat) := match hi with
+      | .incl o => .ok (checkedSucc w o)
+      | .excl o => .ok (some o)
+      | .unb => match sp.asStr with
+        | .panic => .panic
+        | .ok str => .ok (some (blen str))
+    match end? with
+    | .panic => .panic
+    | .ok none => .ok none
+    | .ok (some en) =>
+      match sp.asStr with
+      | .panic => .panic
+      | .ok str => .ok ((getRange str st en).map fun _ => ⟨sp.input, sp.start + st, sp.start + en⟩)
+
 /-- `LinesSpan::next`: the item and the iterator's new `pos`. -/
 def linesSpanNext (sp : Span) (pos : Nat) : Option Span × Nat :=
   if pos > sp.stop then (none, pos) else
@@ -221,6 +258,26 @@ def mergeSpans (a b : Span) : Option Span :=
   if a.stop ≥ b.start ∧ a.start ≤ b.stop then
     Span.new a.input (min a.start b.start) (max a.stop b.stop)
   else none
+
+/-- A span together with the identity of its input object.  `obj` stands for the fat pointer
+`self.input as *const str` (address and length): two `&str` are the same input object iff they
+have the same `obj`; equal TEXT does not make two inputs the same object. -/
+structure ISpan where
+  obj : Nat
+  sp : Span
+  deriving DecidableEq, Repr
+
+/-- `impl PartialEq for Span`: `ptr::eq(self.input, other.input) && start == start && end == end`;
+the text is never compared. -/
+def ISpan.eq (a b : ISpan) : Bool :=
+  a.obj == b.obj && a.sp.start == b.sp.start && a.sp.stop == b.sp.stop
+
+/-- `impl Hash for Span`: what is fed to the hasher, in order. -/
+def ISpan.hashFeed (a : ISpan) : List Nat := [a.obj, a.sp.start, a.sp.stop]
+
+/-- `merge_spans` on spans of arbitrary input objects: the inputs are not compared, the result is
+built by `Span::new(a.get_input(), …)`, i.e. validated against and pointing into `a`'s input. -/
+def mergeISpans (a b : ISpan) : Option ISpan := (mergeSpans a.sp b.sp).map fun r => ⟨a.obj, r⟩
 
 /-! ### `formatter.rs` -/
 
